@@ -535,7 +535,10 @@ ChildrenOK(a, p1, p2, c1, c2) ==
          /\ \A j \in 1..Len(p1) : c1[j] \in {p1[j], p2[j]}
          /\ c2 = Complement(p1, p2, c1)
          /\ a.c = "NPointCrossover" => NPointShape(a.np, p1, p2, c1)
-         /\ a.c = "CycleCrossover"  => <<c1, c2>> = CycleX(p1, p2)
+         \* (whole cycles are exchanged -- which ones is not part of the statement: children that are permutations
+         \*  of the parents' elements can only have exchanged whole cycles)
+         /\ (a.c = "CycleCrossover" /\ IsInj(p1)) =>
+                (Range(c1) = Range(p1) /\ IsInj(c1) /\ Range(c2) = Range(p1) /\ IsInj(c2))
     ELSE a.c = "NPointCrossover" /\ PairConserved(p1, p2, c1, c2)
 (* ... of which only the first child is inserted                           *)
 FirstChildOK(a, p1, p2, c1) ==
